@@ -40,11 +40,18 @@ def entries():
             for canon, words in (info.get(key) or {}).items():
                 inherited = set((parent.get(key) or {}).get(canon, [])) if loc != lang else set()
                 seen = set()
+                own = [w for w in words if w not in inherited]
                 for w in words:
-                    if w in inherited or w in seen:
+                    if w in seen:
                         continue
                     seen.add(w)
-                    out.append((lang, loc, kind, canon, w))
+                    if w in inherited:
+                        # a regional locale also understands what it inherits: walked for every key the locale extends
+                        # itself (where the overlay has to merge two lists), and for one phrase of every other key
+                        if own or w == words[0]:
+                            out.append((lang, loc, kind, canon, w, True))
+                        continue
+                    out.append((lang, loc, kind, canon, w, False))
     return out
 
 
@@ -130,7 +137,8 @@ def classify(canon_text):
 def check_entry(ctx, e, counts, decimals, bases):
     import regex as re
 
-    lang, loc, kind, canon, w = e
+    lang, loc, kind, canon, w = e[:5]
+    inherited = len(e) > 5 and e[5]
     info = vocab.locale_info(loc, lang)
     if not single_meaning(info, kind, canon, w):
         ctx.count("ambiguous_skipped")
@@ -178,15 +186,17 @@ def check_entry(ctx, e, counts, decimals, bases):
                 got = ex
             path = PathTap.accepted("relative-time")
             ctx.ran()
-            ent = "%s|%s|%s|%s" % (loc, canon, w, nf)
+            # an inherited phrase that fails in the regional locale for the reason it fails in its language is that
+            # language's entry (known findings are listed per language-level vocabulary entry)
+            ent = "%s|%s|%s|%s" % (lang if inherited else loc, canon, w, nf)
             if got != exp:
-                ctx.violation({"lang": lang, "locale": loc, "kind": kind, "canon": canon, "listed": w, "phrase": phrase,
+                ctx.violation({"lang": lang, "locale": loc, "kind": kind, "canon": canon, "listed": w, "phrase": phrase, "inherited": inherited,
                                "number_form": nf, "base": base.isoformat()}, got, exp, "relative-phrase:" + classify(c),
                               {"entry": ent, "locale": loc, "number_form": nf, "kind": kind, "path": path})
                 failed_forms.add(nf)
                 break
             if path == "relative-time" and en_path == "relative-time":
-                ctx.nontrivial(ent)
+                ctx.nontrivial(ent, loc)
                 ctx.count("asserted:%s:%s" % (kind, nf))
             else:
                 ctx.count("off_path:%s/%s" % (path, en_path))
@@ -233,5 +243,5 @@ def replay_case(ctx, v):
     PathTap.install()
     TranslateTap.install()
     c = v["case"]
-    check_entry(ctx, (c["lang"], c["locale"], c["kind"], c["canon"], c["listed"]),
+    check_entry(ctx, (c["lang"], c["locale"], c["kind"], c["canon"], c["listed"], bool(c.get("inherited"))),
                 ["0", "1", "2", "3", "11", "45", "120"], ["1.5", "2,5", "0.5"], BASES)
